@@ -216,12 +216,12 @@ def config(prop, tier, scn, variant):
 SCENARIOS = dict(
     C01=dict(quick=['gauss', 'two_split', 'wrap_net', 'half', 'g3_pool_s', 'plateau', 'nlb',
                     'funnel_net', 'ring_net', 'ring_split_net:resume', 'const:resume',
-                    'wrap_pool_s:resume'],
+                    'wrap_pool_s:resume', 'g5:resume', 'net2_tanh:resume'],
              thorough=['gauss', 'gauss_net', 'two', 'ring_net', 'half', 'plateau', 'wrap',
                        'wrap_net', 'g3_pool_s', 'two_pool_s', 'b7_update', 'blob_two_obj', 'b1',
                        'funnel_net', 'funnel', 'nlb', 'nlb_ring', 'empty', 'two_split', 'ring_split_net',
                        'const', 'nuisance3_net', 'wrap_pool_s', 'gauss:resume3', 'half:resume3',
-                       'plateau:resume3', 'const:resume3']),
+                       'plateau:resume3', 'const:resume3', 'g5', 'net2_tanh']),
     C02=dict(quick=['gauss_d', 'half', 'gauss_t', 'wrap_net', 'two_split:resume/0/2+resume/1/2',
                     'const:resume',
                     'funnel_net:resume/0/2+resume/1/2+nshell',
@@ -229,21 +229,21 @@ SCENARIOS = dict(
              thorough=['gauss', 'gauss_t', 'gauss_d', 'gauss_net:resume+nshell', 'two', 'ring_net', 'half',
                        'plateau', 'wrap_net', 'g3_pool_s', 'b7_update', 'b1', 'blob_f32_inplace',
                        'nlb', 'funnel_net', 'empty', 'empty_d:resume+toggle/0/2+toggle/1/2+nshell',
-                       'two_split', 'ring_split_net:resume+nshell', 'const']),
+                       'two_split', 'ring_split_net:resume+nshell', 'const', 'g5', 'net2_tanh:resume+nshell']),
     C03=dict(quick=['blob_float', 'blob_int_vec', 'blob_two_obj', 'blob_array_pool',
                     'blob_struct_dictfn', 'blob_f32_inplace', 'blob_float_b1', 'blob_two_b2_vec'],
              thorough=['blob_float', 'blob_int_vec', 'blob_two_obj', 'blob_array_pool',
                        'blob_struct_dictfn', 'blob_f32_inplace', 'blob_float_b1', 'blob_array_b1',
                        'blob_two_b2_vec', 'blob_struct_b1', 'vec_inplace', 'obj_array_vec',
                        'dictfn_vec_net', 'pool_l3', 'gauss', 'wrap_net']),
-    C05=dict(quick=['gauss_s', 'gauss_d', 'wrap_net', 'blob_two_obj', 'gauss_net', 'two_split', 'nlb',
+    C05=dict(quick=['gauss_s', 'gauss_d', 'wrap_net', 'blob_two_obj', 'net2_tanh', 'two_split', 'nlb',
                     'b7_update:resume/0/2+resume/1/2+slices/0/2+slices/1/2',
                     'const:resume/0/2+resume/1/2'],
              thorough=['gauss', 'gauss_s', 'gauss_d', 'gauss_net', 'two', 'ring_net', 'half', 'wrap',
                        'wrap_net', 'g3_pool_s', 'blob_float', 'blob_int_vec', 'blob_two_obj',
                        'blob_array_pool', 'blob_struct_dictfn', 'blob_f32_inplace',
                        'dictfn_vec_net', 'b7_update', 'nlb', 'nlb_ring', 'b1', 'empty_d', 'two_split',
-                       'ring_split_net', 'const', 'nuisance3_net', 'funnel_net']),
+                       'ring_split_net', 'const', 'nuisance3_net', 'funnel_net', 'g5', 'net2_tanh']),
     C10=dict(quick=['gauss_s', 'b7_update', 'half', 'gauss_d', 'nlb', 'const:slices+resume'],
              thorough=['gauss', 'gauss_s', 'gauss_d', 'b7_update', 'half', 'b1', 'two', 'wrap_net',
                        'blob_int_vec', 'pool_l3']),
